@@ -947,6 +947,137 @@ Proof.
   - unfold id_or_attr. destruct (o_span r); [contradiction|reflexivity].
 Qed.
 
+(* ---- the two trace-context identifiers of a log record, each on its own ---- *)
+Ltac otlp_fixed_lookup :=
+  unfold otlp_log_build; rewrite !lookup_app;
+  rewrite ?(lookup_add_prefix_other (s2b "resource.attributes.")) by reflexivity;
+  rewrite ?(lookup_add_prefix_other (s2b "scope.attributes.")) by reflexivity;
+  rewrite ?(lookup_add_prefix_other (s2b "attributes.")) by reflexivity;
+  cbn [lookup];
+  repeat match goal with |- context [bytes_eqb (s2b ?a) (s2b ?b)] =>
+    let c := eval vm_compute in (bytes_eqb (s2b a) (s2b b)) in
+    change (bytes_eqb (s2b a) (s2b b)) with c end;
+  cbn iota.
+
+Lemma id_or_attr_spec id name attrs :
+  id_or_attr id name attrs = otlp_id_spec id (lookup name (map_set_all attrs [])).
+Proof. unfold id_or_attr, otlp_id_spec. destruct id; reflexivity. Qed.
+
+Lemma otlp_log_lookup_trace res sc r :
+  lookup (s2b "trace_id") (otlp_log_build res sc r) =
+  Some (SStr (otlp_id_spec (o_trace r) (otlp_rec_attr (s2b "trace_id") r))).
+Proof. otlp_fixed_lookup. rewrite id_or_attr_spec. reflexivity. Qed.
+
+Lemma otlp_log_lookup_span res sc r :
+  lookup (s2b "span_id") (otlp_log_build res sc r) =
+  Some (SStr (otlp_id_spec (o_span r) (otlp_rec_attr (s2b "span_id") r))).
+Proof. otlp_fixed_lookup. rewrite id_or_attr_spec. reflexivity. Qed.
+
+(* for EVERY record: each stored identifier is a function of its own field and of the attribute of the
+   same name, nothing else *)
+Theorem otlp_log_ids_any res sc r :
+  lookup (s2b "trace_id") (otlp_log_build res sc r) =
+    Some (SStr (otlp_id_spec (o_trace r) (otlp_rec_attr (s2b "trace_id") r))) /\
+  lookup (s2b "span_id") (otlp_log_build res sc r) =
+    Some (SStr (otlp_id_spec (o_span r) (otlp_rec_attr (s2b "span_id") r))).
+Proof. split; [apply otlp_log_lookup_trace | apply otlp_log_lookup_span]. Qed.
+
+(* an identifier in its own field is stored as it is -- no condition on the other identifier or on any attribute *)
+Theorem otlp_log_id_own_field res sc r :
+  (o_trace r <> [] -> lookup (s2b "trace_id") (otlp_log_build res sc r) = Some (SStr (o_trace r))) /\
+  (o_span r <> [] -> lookup (s2b "span_id") (otlp_log_build res sc r) = Some (SStr (o_span r))).
+Proof.
+  split; intros H.
+  - rewrite otlp_log_lookup_trace. unfold otlp_id_spec. destruct (o_trace r); [contradiction|reflexivity].
+  - rewrite otlp_log_lookup_span. unfold otlp_id_spec. destruct (o_span r); [contradiction|reflexivity].
+Qed.
+
+(* an identifier carried only as an attribute reaches the stored field -- no condition on the other identifier *)
+Theorem otlp_log_id_from_attribute res sc r v :
+  (o_trace r = [] -> otlp_rec_attr (s2b "trace_id") r = Some v ->
+   lookup (s2b "trace_id") (otlp_log_build res sc r) = Some (SStr (fmt_v v))) /\
+  (o_span r = [] -> otlp_rec_attr (s2b "span_id") r = Some v ->
+   lookup (s2b "span_id") (otlp_log_build res sc r) = Some (SStr (fmt_v v))).
+Proof.
+  split; intros H Ha.
+  - rewrite otlp_log_lookup_trace, H, Ha. reflexivity.
+  - rewrite otlp_log_lookup_span, H, Ha. reflexivity.
+Qed.
+
+Theorem otlp_log_id_absent res sc r :
+  (o_trace r = [] -> otlp_rec_attr (s2b "trace_id") r = None ->
+   lookup (s2b "trace_id") (otlp_log_build res sc r) = Some (SStr [])) /\
+  (o_span r = [] -> otlp_rec_attr (s2b "span_id") r = None ->
+   lookup (s2b "span_id") (otlp_log_build res sc r) = Some (SStr [])).
+Proof.
+  split; intros H Ha.
+  - rewrite otlp_log_lookup_trace, H, Ha. reflexivity.
+  - rewrite otlp_log_lookup_span, H, Ha. reflexivity.
+Qed.
+
+(* two records (of any resources / scopes) that agree on ONE identifier's field and attribute store the same
+   value for it, however they differ in the other identifier and everywhere else *)
+Theorem otlp_log_ids_independent res sc r res' sc' r' :
+  (o_trace r = o_trace r' -> otlp_rec_attr (s2b "trace_id") r = otlp_rec_attr (s2b "trace_id") r' ->
+   lookup (s2b "trace_id") (otlp_log_build res sc r) = lookup (s2b "trace_id") (otlp_log_build res' sc' r')) /\
+  (o_span r = o_span r' -> otlp_rec_attr (s2b "span_id") r = otlp_rec_attr (s2b "span_id") r' ->
+   lookup (s2b "span_id") (otlp_log_build res sc r) = lookup (s2b "span_id") (otlp_log_build res' sc' r')).
+Proof.
+  split; intros H Ha.
+  - rewrite !otlp_log_lookup_trace, H, Ha. reflexivity.
+  - rewrite !otlp_log_lookup_span, H, Ha. reflexivity.
+Qed.
+
+(* the fall-back reads the attribute, it does not consume it *)
+Theorem otlp_log_id_attr_kept res sc r :
+  lookup (s2b "attributes.trace_id") (otlp_log_build res sc r) = otlp_rec_attr (s2b "trace_id") r /\
+  lookup (s2b "attributes.span_id") (otlp_log_build res sc r) = otlp_rec_attr (s2b "span_id") r.
+Proof.
+  split.
+  - exact (otlp_log_record_attr res sc r (s2b "trace_id")).
+  - exact (otlp_log_record_attr res sc r (s2b "span_id")).
+Qed.
+
+(* all 16 ways of carrying the two identifiers, any values *)
+Theorem otlp_log_ids_sixteen res sc tm sm tf ta sf sa :
+  tm < 4 -> sm < 4 ->
+  lookup (s2b "trace_id") (otlp_log_build res sc (otlp_id_rec tm sm tf ta sf sa)) =
+    Some (SStr (otlp_id_carried tm tf ta)) /\
+  lookup (s2b "span_id") (otlp_log_build res sc (otlp_id_rec tm sm tf ta sf sa)) =
+    Some (SStr (otlp_id_carried sm sf sa)).
+Proof.
+  intros Ht Hs.
+  assert (Et : tm = 0 \/ tm = 1 \/ tm = 2 \/ tm = 3) by lia.
+  assert (Es : sm = 0 \/ sm = 1 \/ sm = 2 \/ sm = 3) by lia.
+  rewrite otlp_log_lookup_trace, otlp_log_lookup_span. unfold otlp_rec_attr.
+  destruct Et as [->|[->|[->| ->]]]; destruct Es as [->|[->|[->| ->]]];
+    cbn; destruct tf; destruct sf; split; reflexivity.
+Qed.
+
+(* the function with ONE guard for both fall-backs is the same on records that carry both identifiers the same
+   way (both in their fields, or neither in its field) ... *)
+Theorem otlp_ids_one_guard_same_on_uniform r :
+  (o_trace r <> [] /\ o_span r <> []) \/ (o_trace r = [] /\ o_span r = []) ->
+  otlp_ids_one_guard r =
+  (otlp_id_spec (o_trace r) (otlp_rec_attr (s2b "trace_id") r), otlp_id_spec (o_span r) (otlp_rec_attr (s2b "span_id") r)).
+Proof.
+  unfold otlp_ids_one_guard, otlp_id_spec. intros [[Ht Hs]|[Ht Hs]].
+  - destruct (o_trace r); [contradiction|]. destruct (o_span r); [contradiction|]. reflexivity.
+  - rewrite Ht, Hs. destruct (otlp_rec_attr (s2b "span_id") r); reflexivity.
+Qed.
+
+(* ... and a different function on records that carry them differently: a span id in its own field is overwritten,
+   a span id carried as an attribute next to a trace id field is not taken *)
+Theorem otlp_ids_one_guard_differs : exists r1 r2,
+  o_span r1 <> [] /\ snd (otlp_ids_one_guard r1) <> o_span r1 /\
+  o_span r2 = [] /\ otlp_rec_attr (s2b "span_id") r2 = Some (SStr (s2b "b7ad6b7169203331")) /\
+  snd (otlp_ids_one_guard r2) = [].
+Proof.
+  exists (otlp_id_rec 1 2 [] (s2b "0af7651916cd43dd8448eb211c80319c") (s2b "deadbeef00112233") (s2b "b7ad6b7169203331")),
+         (otlp_id_rec 0 1 (s2b "0af7651916cd43dd8448eb211c80319c") [] [] (s2b "b7ad6b7169203331")).
+  vm_compute. repeat split; congruence.
+Qed.
+
 (* ================= 8. OTLP traces ================= *)
 
 Definition span_fixed (s : span) : event :=
